@@ -45,7 +45,15 @@ def extract_one(kind, path, ty):
     # --- registration vs write ---------------------------------------------------------------
     guard_based = "PendingRequestGuard::register" in call
     reg = _pos(r"PendingRequestGuard::register\s*\(|pending\s*\.\s*insert\s*\(", call, f"{kind}: registration in call path")
-    wr = _pos(r"self\s*\.\s*write_request\s*\(", call, f"{kind}: write_request in call path")
+    # the write = the first use of the built message (`msg`) after its `let`, whatever the writing
+    # function is called; a renamed writer is still recognised, a reordering is still seen
+    lm = re.search(r"let\s+msg\s*=[^;]*;", call)
+    if not lm:
+        raise ExtractError(f"{kind}: `let msg = …;` not found in the call path")
+    um = re.compile(r"\bmsg\b").search(call, lm.end())
+    if not um:
+        raise ExtractError(f"{kind}: the built message is never used")
+    wr = um.start()
     alloc = _pos(r"self\s*\.\s*next_request_id\s*\(", call, f"{kind}: id allocation in call path")
     if not alloc < reg:
         raise ExtractError(f"{kind}: id allocated after registration")
@@ -70,7 +78,11 @@ def extract_one(kind, path, ty):
         dbody = fn_body(dimp, "drop")
         rm = _pos(r"pending\s*\.\s*remove\s*\(\s*&\s*self\s*\.\s*request_id\s*\)", dbody, "guard drop", required=False)
         dis = _pos(r"if\s+self\s*\.\s*disarmed\s*\{\s*return\s*;", dbody, "guard drop disarm test", required=False)
-        drop_removes = rm is not None and (dis is None or dis < rm)
+        # any other condition or early return in `drop` (an inverted test, an extra flag) is read
+        # pessimistically: the removal might be skipped
+        other_ifs = len(re.findall(r"\bif\b", dbody)) - (1 if dis is not None else 0)
+        other_returns = len(re.findall(r"\breturn\b", dbody)) - (1 if dis is not None else 0)
+        drop_removes = rm is not None and (dis is None or dis < rm) and other_ifs == 0 and other_returns == 0
         # guard must be bound to a named variable (alive until the end of the call) and disarmed only after the value
         bound = re.search(r"let\s+mut\s+(\w+)\s*=\s*PendingRequestGuard::register", call)
         if not bound or bound.group(1).startswith("_") and bound.group(1) == "_":
@@ -122,7 +134,7 @@ def extract_one(kind, path, ty):
     stops = True
     for c in calls:
         tail = loop[c:c + 160]
-        if re.match(r"[^;]*;\s*break\s*;", tail):
+        if re.match(r"[^;]*;\s*(break|return)\s*;", tail):
             continue
         if re.match(r"[^;]*;\s*continue\s*;", tail):
             stops = False
